@@ -546,6 +546,12 @@ def main() -> None:
                 log, yaml_editor, merge_config, mergers, "-")
             merge_count += 1
 
+    # When no source held any document at all -- an empty file, or nothing
+    # but comments -- the result is the one empty document which the same
+    # text already gives when it arrives via STDIN.
+    if exit_state == 0 and len(mergers) < 1:
+        mergers.append(Merger(log, "", merge_config))
+
     # When no merges have occurred, check for a single-doc merge request
     if (exit_state == 0
         and merge_count == 0
